@@ -59,7 +59,7 @@ def decodeAttrs (x : Sexp) : List (Nat × List (String × Int)) :=
 def mkVal (sc : Sch) (s : State) (plain : List (Nat × List (String × Int))) : Valuation := fun x name =>
   match (plain.lookup x).bind (fun ps => ps.lookup name) with
   | some v => some v
-  | none => (getAttr sc.assocs sc.attrs s (2 * sc.assocs.length + 4) x name).map Int.ofNat
+  | none => (getAttr sc.assocs sc.attrs s (driverFuel sc.assocs s) x name).map Int.ofNat
 
 def optInst : Option Inst → Sexp
   | some x => int x
